@@ -18,6 +18,10 @@ What is state (read from the code at /repo, after the repairs 9510742, 981b773, 
   `rtf_encode()` assigns into a component or a frame (`df.clone()`, `model_copy`, `deepcopy` before
   every per-page write).                                                          → `World.heap`, `World.frames`
 * documents constructed so far are process-local objects.                         → `World.docs`
+* `strwidth.get_string_width` (pagination measures every cell with it; also public) opens the font file
+  on every call and keeps nothing: no state.  `Op.measure` is therefore a step that leaves the world
+  alone.  What a *store* of measurements / loaded fonts would have to satisfy to keep that true is
+  `Model/Memo.lean` (a keyed store is harmless iff its key determines the stored value).
 
 `Legacy.*` at the end keeps the two historical behaviours (writes into the caller's objects at
 construction; context set on one path only and not cleared on failure) so that the theorems can show
@@ -455,6 +459,8 @@ inductive Op where
   | encodeTwice (n : DocId)
   | drop (n : DocId)                     -- `del docs[n]`
   | lookup (c : Color)                   -- a colour lookup outside any encode
+  | measure                              -- a direct `get_string_width(...)` call (valid or raising): reads and
+                                         -- writes no process state (a function of its arguments, see `Model.Memo`)
   deriving Repr
 
 inductive Out where
@@ -463,6 +469,7 @@ inductive Out where
   | twice (a b : Outcome)
   | dropped
   | looked (l : Lookup)
+  | measured
   | noDoc
   deriving DecidableEq, Repr
 
@@ -486,6 +493,7 @@ def step (T : Table) (w : World) : Op → World × Out
     | none => (w, .noDoc)
   | .drop n => ({ w with docs := w.docs.filter (fun e => e.1 != n) }, .dropped)
   | .lookup c => (w, .looked (rtfColorIndex T w.ctx c))
+  | .measure => (w, .measured)
 
 def run (T : Table) (w : World) : List Op → World × List Out
   | [] => (w, [])
